@@ -202,7 +202,7 @@ static void l_apply(int op, int check)
     case L_USE: case L_USEBIG: {
         size_t n = o->type == L_USE ? 5 : (size_t)ctr_batch(g_c, g_be) + 3;
         if (g_okind == OK_CTR) r = ctr_encrypt(g_c, &b->h.c, out, in, n);
-        else r = par_crypt(g_c, &b->h.p, out, in, tw, (size_t)g_bs * 3, 0);
+        else r = par_crypt(g_c, &b->h.p, out, in, tw, (size_t)par_batch(g_c, cipher_max_be(g_c)) + (size_t)g_bs, 0);   /* one widest batch plus a block, whatever back end serves the object */
         break; }
     case L_USE0:
         if (g_okind == OK_CTR) r = ctr_encrypt(g_c, &b->h.c, out, in, 0);
@@ -305,14 +305,14 @@ static const char *FNAME[] = {"cleanup", "set_key", "set_counter", "use", "swap_
 
 static int f_call(int okind, Cipher c, void *h, int op)
 {
-    static uint8_t in[64], out[64], tw[64];
+    static uint8_t in[256], out[256], tw[256];
     CtrObj *co = h; ParObj *po = h;
     switch (op) {
     case F_CLEANUP: case F_CLEANUP2: if (okind == OK_CTR) ctr_cleanup(c, co); else par_cleanup(c, po); return 0;
     case F_KEY: return okind == OK_CTR ? ctr_set_key(c, co, KEYS[0], c == CK_MANTIS ? 16 : (unsigned)cipher_bs(c), 5)
                                        : par_set_key(c, po, KEYS[0], c == CK_MANTIS ? 16 : (unsigned)cipher_bs(c), 5, MANTIS_ENCRYPT);
     case F_CTR: return okind == OK_CTR ? ctr_set_counter(c, co, KEYS[1], (unsigned)cipher_bs(c)) : 0;
-    case F_ENC: return okind == OK_CTR ? ctr_encrypt(c, co, out, in, 9) : par_crypt(c, po, out, in, tw, (size_t)cipher_bs(c) * 2, 0);
+    case F_ENC: return okind == OK_CTR ? ctr_encrypt(c, co, out, in, 9) : par_crypt(c, po, out, in, tw, (size_t)par_batch(c, cipher_max_be(c)) + (size_t)cipher_bs(c), 0);
     default: if (okind == OK_PAR && c == CK_MANTIS) par_swap_modes(po); return 0;
     }
 }
